@@ -598,6 +598,24 @@ class StateEngine(object):
         execution = context["Execution"]
         execution_arn = context["Execution"]["Id"]
 
+        """
+        Check if the output of the terminal State has exceeded the 262144
+        character quota described in Stepfunction Quotas page, as is done
+        in change_state for the output of States that have a Next State.
+        https://docs.aws.amazon.com/step-functions/latest/dg/limits.html
+        If so then we fail the execution.
+        """
+        if not execution_failed and len(output_as_string) > MAX_DATA_LENGTH:
+            error_message = ("{} an error occurred while executing the state "
+                             "\"{}\": A result with a size exceeding the maximum "
+                             "number of characters service limit "
+                             "was returned.").format(execution_arn, state["Name"])
+            self.logger.error(error_message)
+            data = {"Error": "States.DataLimitExceeded", "Cause": error_message}
+            event["data"] = data
+            execution_failed = True
+            output_as_string = json.dumps(data)
+
         # Stepfunctions don't transition to StateExited if the execution fails.
         if not execution_failed:
             self.update_execution_history(
